@@ -45,6 +45,22 @@ Theorem C03_layout_sequence : forall l r data, N.of_nat (length data) <= lpt_max
   Ok (le_enc (lpt_size l) (N.of_nat (length data)) ++ concat (if ar_autosort r && ar_lex r then sortb data else data)).
 Proof. exact layout_seq_novalidation. Qed.
 
+(* the written prefix is the element count only while it fits the width: at exactly 2^w (uint8, uint16, uint32) the
+   reference encoder has no representation and fails - it never writes the count modulo 2^w (seed C03-m8) *)
+Theorem C03_layout_prefix_overflow : forall l n, l <> L64 -> lpt_max l < n -> write_len l n = Err EOther.
+Proof. exact layout_prefix_overflow. Qed.
+
+Theorem C03_layout_sequence_overflow : forall val l r data, l <> L64 -> lpt_max l < N.of_nat (length data) ->
+  (val = true -> check_bounds (ar_min r) (ar_max r) (N.of_nat (length data)) = Ok tt) ->
+  enc_seq val l r data = Err EOther.
+Proof. exact layout_seq_overflow. Qed.
+
+Example C03_layout_prefix_limits :
+  write_len L8 255 = Ok [255] /\ write_len L8 256 = Err EOther /\
+  write_len L16 65535 = Ok [255; 255] /\ write_len L16 65536 = Err EOther /\
+  write_len L32 4294967295 = Ok [255; 255; 255; 255] /\ write_len L32 4294967296 = Err EOther.
+Proof. exact layout_prefix_limits. Qed.
+
 (* ---- reverse direction: validated decoding accepts only canonical bytes ---- *)
 
 (* For ALL schemas of the fragment (wfc: no zero-size sequence elements, pointer targets the encoder supports,
@@ -139,3 +155,6 @@ Print Assumptions C03_history_independent.
 Print Assumptions C03_history_pointwise.
 Print Assumptions C03_custom_decode_validated.
 Print Assumptions C03_custom_validator_cases.
+Print Assumptions C03_layout_prefix_overflow.
+Print Assumptions C03_layout_sequence_overflow.
+Print Assumptions C03_layout_prefix_limits.
